@@ -22,6 +22,7 @@ type WriteRec struct {
 	Step int
 	T    time.Duration
 	Data []byte
+	Part int // 1: first part of a write that the simulated slow consumer took in two parts
 }
 
 // ErrRec is one zap error-level entry.
@@ -121,7 +122,7 @@ func (stdoutT) Write(p []byte) (int, error) {
 		// a process that exits in between leaves a torn record behind
 		half := len(p) / 2
 		w.mu.Lock()
-		w.Out = append(w.Out, WriteRec{Step: r.Step(), T: r.Now(), Data: append([]byte{}, p[:half]...)})
+		w.Out = append(w.Out, WriteRec{Step: r.Step(), T: r.Now(), Data: append([]byte{}, p[:half]...), Part: 1})
 		w.mu.Unlock()
 		simrt.Fault("stdout-stall")
 		simrt.Sleep("stdout.stall", d)
